@@ -1,12 +1,14 @@
 #!/bin/bash
 # Runs every behaviour-preserving change under /verif/benign against the check of its property (quick tier) and writes benign/RESULTS.md
 # (C11_* and C12_* ids are run against both C11 and C12, C06_*/C07_* against both C06 and C07: the translated functions are shared)
+# ONLY="C01 C08" OUT=file restricts to some properties and writes the rows elsewhere (used by tools/matrix_parallel.sh)
 cd /verif
-out=benign/RESULTS.md
+out=${OUT:-benign/RESULTS.md}
 echo "| change | check | quick check | what was reported |" > $out.tmp
 echo "|---|---|---|---|" >> $out.tmp
 for d in $(ls -d benign/C*_b* | sort); do
   id=$(basename $d); prop=${id%%_*}
+  if [ -n "$ONLY" ] && ! echo " $ONLY " | grep -q " $prop "; then continue; fi
   props=$prop
   case $prop in C11|C12) props="C11 C12";; C06|C07) props="C06 C07";; C08) props="C08 C01";; esac
   for p in $props; do
